@@ -9,6 +9,7 @@ use crate::{
     compression::{self, CompressionMethod, compress},
     crypto::{encrypt_block, hash_string, hash_type},
     header::FormatVersion,
+    path::plain_file_name,
     special_files::{AttributeFlags, Attributes, FileAttributes},
     tables::{BetHeader, BlockEntry, BlockTable, HashEntry, HashTable, HetHeader, HiBlockTable},
 };
@@ -1020,9 +1021,9 @@ impl MutableArchive {
             let key = if options.fix_key {
                 // For FIX_KEY, we need the block position
                 // This is a simplified version - real implementation would adjust by block
-                hash_string(archive_name, hash_type::FILE_KEY)
+                hash_string(plain_file_name(archive_name), hash_type::FILE_KEY)
             } else {
-                hash_string(archive_name, hash_type::FILE_KEY)
+                hash_string(plain_file_name(archive_name), hash_type::FILE_KEY)
             };
 
             // Remember original length before padding (reserved for future use)
